@@ -251,9 +251,8 @@ Definition check_step1 (st : world * spec) (so : op * obs) : (world * spec) * li
   let keys := match o_read ob with Some r => map fst (r_gets r) | None => [] end in
   (* ----- model comparisons ----- *)
   let c_rot := match o with
-               | OPut d k v rot => flag (Bool.eqb rot (snd (write_op w d k false v))) 6
-               | ODel d k rot => flag (Bool.eqb rot (snd (write_op w d k true []))) 6
-               | _ => [] end in
+               (* retired (code 6): whether a write rotates is observed data replayed by the model, not a prediction that is compared *)
+               | _ => @nil N end in
   let c_files := flag (names_eqb (o_files ob) (sort_names (map fst (g_fs w')))) 2 in
   let c_handles := flag (list_eqb hobs_eqb (o_handles ob) (map (model_handle w') (sort_handles (g_handles w')))) 3 in
   let c_live := flag (list_eqb lobs_eqb (o_live ob) (model_live (g_dbs w') 0)) 4 in
